@@ -7,6 +7,7 @@ import random
 
 import torch
 
+from .. import ride  # noqa: E402
 from .. import env, probes, zoo
 
 ID = "C12"
@@ -16,7 +17,7 @@ RULE = ("case = (solver x noise cell, dtype pair, ts layout, dt) from VERIF_SEED
 ASSUMPTIONS = ["grid model: contiguous steps from ts[0]; every step but the last satisfies t1 = t0 + dt in ts's dtype; "
                "the last ends exactly at ts[-1] and is no longer than dt*(1+1e-6)",
                "interpolation compared to an independent float64 interpolant: 1e-13 (float64 state) / 2e-5 (float32)"]
-REQUIRED_COUNTERS = ["steps", "outputs_inside_step", "outputs_on_grid", "variant_shared_outputs", "ts_list", "ts_f32",
+REQUIRED_COUNTERS = ["ride_c12_integrate_calls", "ride_c12_outputs_inside_step", "steps", "outputs_inside_step", "outputs_on_grid", "variant_shared_outputs", "ts_list", "ts_f32",
                      "y_f32", "several_outputs_one_step", "dt_larger_than_T", "outputs_inside_clipped_last_step",
                      "first_gap_smaller_than_dt", "default_dtype_float32_cases", "list_ts_f64_state_under_default_f32",
                      "via_sdeint_adjoint", "float32_brownian_float64_state", "y0_non_contiguous"]
@@ -30,6 +31,7 @@ def cases(tier, seed):
     for ci, cell in enumerate(cells):
         for r in range(reps):
             out.append({"key": f"{zoo.cell_name(cell)}-{r}", "cell": cell, "rseed": hash((seed, ci, r)) % (2 ** 31)})
+    out += ride.cases_for("C12", tier, seed)  # the repository's own tests under passive monitors
     return out
 
 
@@ -58,6 +60,8 @@ def _mk_ts(rng, t0, T, layout, dt):
 
 
 def run_case(case):
+    if case.get("kind") == "ride":
+        return ride.run_case(case)
     import torchsde
     cell = case["cell"]
     rng = random.Random(case["rseed"])
